@@ -6,7 +6,7 @@ from .engine import Unsupported, Mir
 from . import harness
 from .harness import Inconclusive, run_queries, load_known_findings, VERIF
 
-PROPS = {'C15': 'c15', 'C02': 'c02', 'C14': 'c14', 'C17': 'c17', 'C18': 'c18', 'C06': 'c06', 'C01': 'c01', 'C05': 'c05', 'C09': 'c09', 'C08': 'c08'}
+PROPS = {'C20': 'c20', 'C15': 'c15', 'C02': 'c02', 'C14': 'c14', 'C17': 'c17', 'C18': 'c18', 'C06': 'c06', 'C01': 'c01', 'C05': 'c05', 'C09': 'c09', 'C08': 'c08'}
 
 _mir_cache = {}
 def worker_mir(default_features):
@@ -20,6 +20,9 @@ def run_cube(args):
     name = mod.cube_name(cube)
     try:
         mir = worker_mir(default_features)
+        if cube.get('engine') == 'kani':
+            rec = mod.run_cube_custom(mir, cube, tier, replay_dir); rec['cube'] = name
+            return rec
         eng, world, base, queries = mod.build(mir, cube)
         t1 = time.time()
         known = load_known_findings(prop)
@@ -56,7 +59,7 @@ def main(argv):
     has_fc = 'fast_check' in (mir.structs.get('JsModule') or [])
     cubes = mod.cubes(tier, has_fc)
     timeout_ms = int(os.environ.get('VERIF_QUERY_TIMEOUT_S', '240' if tier == 'quick' else '1500')) * 1000
-    replay_dir = os.path.join(VERIF, 'counterexamples')
+    replay_dir = os.environ.get('VERIF_CEX', os.path.join(VERIF, 'counterexamples'))
     try: harness.build_replay(has_fc)
     except Inconclusive as e:
         print(f'INCONCLUSIVE property={prop}: {e}'); write_evidence(prop, tier, seed, mir, [], [str(e)], time.time() - t0, {}); return 2
@@ -94,7 +97,8 @@ def main(argv):
     return 0
 
 def write_evidence(prop, tier, seed, mir, recs, inconclusive, wall, extra, mod=None):
-    os.makedirs(os.path.join(VERIF, 'evidence'), exist_ok=True)
+    evdir = os.environ.get('VERIF_EVIDENCE', os.path.join(VERIF, 'evidence'))
+    os.makedirs(evdir, exist_ok=True)
     queries = [dict(q, cube=r['cube']) for r in recs for q in r['queries']]
     fns = sorted({f for r in recs for f in r['fns']})
     models = sorted({m for r in recs for m in r['models']})
@@ -130,7 +134,7 @@ def write_evidence(prop, tier, seed, mir, recs, inconclusive, wall, extra, mod=N
         'wall_s': round(wall, 1),
         'violations': sum(len(r['violations']) for r in recs),
     }
-    open(os.path.join(VERIF, 'evidence', f'{prop}.json'), 'w').write(json.dumps(ev, indent=1, default=str))
+    open(os.path.join(evdir, f'{prop}.json'), 'w').write(json.dumps(ev, indent=1, default=str))
 
 def do_replay(prop, mod, path):
     payload = json.load(open(path))
